@@ -76,6 +76,10 @@ RANGE_OLD = """        if "-" not in item:
             if begin < last_end or last_end < 0:
                 return None
             if end_str:
+                if end_str.startswith("-"):
+                    # _plain_int accepts a sign, a position does not have one
+                    return None
+
                 try:
                     end = _plain_int(end_str) + 1
                 except ValueError:
@@ -1445,13 +1449,13 @@ def _prop(body: str):
     return (Q, DT_PROP_AT, body + "\n" + DT_PROP_AT)
 
 
-IFR_OLD = "    if date is not None:\n        return ds.IfRange(date=date)\n"
+IFR_OLD = "        if date is not None:\n            return ds.IfRange(date=date)\n"
 DT_VARIANTS = [
     # mutants, one spelling each
     V("M:date-utc-helper-after-try", (H, DT_TAIL, "    return _dt_as_utc(dt)\n"), expect="R7.1"),
     V("M:date-astimezone-inline", (H, DT_TAIL, "    if dt.tzinfo is None:\n        return dt.replace(tzinfo=timezone.utc)\n\n    return dt.astimezone(timezone.utc)\n"), expect="R7.1"),
     V("M:date-minus-utcoffset", (H, DT_TAIL, "    shift = dt.utcoffset()\n\n    if shift is None:\n        return dt.replace(tzinfo=timezone.utc)\n\n    return (dt - shift).replace(tzinfo=timezone.utc)\n"), expect="R7.1"),
-    V("M:if-range-grace-second-augassign", (H, IFR_OLD, "    if date is not None:\n        date += timedelta(seconds=1)\n        return ds.IfRange(date=date)\n"), expect="R7.1"),
+    V("M:if-range-grace-second-augassign", (H, IFR_OLD, "        if date is not None:\n            date += timedelta(seconds=1)\n            return ds.IfRange(date=date)\n"), expect="R7.1"),
     V("M:date-clamped-to-epoch-year", (H, DT_TAIL, "    if dt.year < 1970:\n        dt = dt.replace(year=1970)\n\n" + DT_TAIL), expect="R7.1"),
     V("M:date-naive-timestamp-test", (H, DT_TAIL, "    if dt.timestamp() < 0:\n        return None\n\n" + DT_TAIL), expect="R7.1"),
     V("M:request-date-utc-property-unhandled", DT_IMPORTS, _prop("    @property\n    def date_utc(self) -> datetime | None:\n        sent = self.date\n        return sent.astimezone(timezone.utc) if sent is not None else None\n"), expect="R7.1"),
@@ -1830,3 +1834,65 @@ R3_ETAG2 = [
     V("M:r3-etag-text-shortened-by-searched-match", (H, ETAG_OLD, ETAG_REMOVEPREFIX.replace("_etag_re.match(rest)", "_etag_re.search(rest)")), expect="R7.2"),
 ]
 _split(R3_ETAG2)
+
+
+# -- round-4 seed C07-H: the *value* of the errors handler that reaches a decode must not plant lone surrogates (R7.3)
+I = "_internal.py"; Q = "sansio/request.py"; H = "http.py"; F = "formparser.py"; WR = "wrappers/request.py"; U = "urls.py"
+DANCE_DEF_OLD = 'def _wsgi_decoding_dance(s: str) -> str:\n    return s.encode("latin1").decode(errors="replace")\n'
+FULLPATH_OLD = '        return f"{self.path}?{self.query_string.decode(errors="replace")}"\n'
+OPT_UNQUOTE_OLD = "                pv = unquote(pv, encoding=encoding)\n"
+GETDATA_OLD = '            rv = rv.decode(errors="replace")\n'
+URLQ_OLD = '    out = quote(e.object[e.start : e.end], safe="")  # type: ignore\n'
+R4_SURROGATES = [
+    V("r4-dance-handler-module-constant", (I, DANCE_DEF_OLD, '_CGI_ERRORS = "replace"\n\n\ndef _wsgi_decoding_dance(s: str) -> str:\n    return s.encode("latin1").decode(errors=_CGI_ERRORS)\n')),
+    V("r4-dance-handler-parameter-default", (I, DANCE_DEF_OLD, 'def _wsgi_decoding_dance(s: str, errors: str = "replace") -> str:\n    return s.encode("latin1").decode("utf-8", errors)\n')),
+    V("r4-dance-handler-local", (I, DANCE_DEF_OLD, 'def _wsgi_decoding_dance(s: str) -> str:\n    handler = "replace"\n    raw = s.encode("latin1")\n    return str(raw, "utf-8", handler)\n')),
+    V("r4-unquote-explicit-default-handler", (H, OPT_UNQUOTE_OLD, '                pv = unquote(pv, encoding, "replace")\n')),
+    V("r4-full-path-helper-decodes", (Q, FULLPATH_OLD, '        return f"{self.path}?{self._query_text()}"\n\n    def _query_text(self) -> str:\n        return str(self.query_string, errors="replace")\n')),
+    V("M:r4-dance-positional-surrogateescape", (I, DANCE_DEF_OLD, 'def _wsgi_decoding_dance(s: str) -> str:\n    raw = s.encode("latin1")\n    return raw.decode("utf-8", "surrogateescape")\n'), expect="R7.3"),
+    V("M:r4-dance-str-ctor-surrogatepass", (I, DANCE_DEF_OLD, 'def _wsgi_decoding_dance(s: str) -> str:\n    return str(s.encode("latin1"), "utf-8", "surrogatepass")\n'), expect="R7.3"),
+    V("M:r4-dance-module-constant-surrogateescape", (I, DANCE_DEF_OLD, '_CGI_ERRORS = "surrogateescape"\n\n\ndef _wsgi_decoding_dance(s: str) -> str:\n    return s.encode("latin1").decode(errors=_CGI_ERRORS)\n'), expect="R7.3"),
+    V("M:r4-dance-parameter-default-surrogateescape", (I, DANCE_DEF_OLD, 'def _wsgi_decoding_dance(s: str, errors: str = "surrogateescape") -> str:\n    return s.encode("latin1").decode("utf-8", errors)\n'), expect="R7.3"),
+    V("M:r4-full-path-surrogateescape", (Q, FULLPATH_OLD, '        return f"{self.path}?{self.query_string.decode(errors="surrogateescape")}"\n'), expect="R7.3"),
+    V("M:r4-unquote-surrogateescape", (H, OPT_UNQUOTE_OLD, '                pv = unquote(pv, encoding=encoding, errors="surrogateescape")\n'), expect="R7.3"),
+    V("M:r4-get-data-encode-only-handler", (WR, GETDATA_OLD, '            rv = rv.decode(errors="xmlcharrefreplace")\n'), expect="R7.3"),
+    V("M:r4-full-path-handler-name-typo", (Q, FULLPATH_OLD, '        return f"{self.path}?{self.query_string.decode(errors="werkzeug.url_qoute")}"\n'), expect="R7.3"),
+    V("M:r4-registered-handler-hands-back-surrogate", (U, URLQ_OLD, '    out = "\\udcff"\n'), expect="R7.3"),
+    V("M:r4-helper-decodes-surrogateescape", (Q, FULLPATH_OLD, '        return f"{self.path}?{self._query_text()}"\n\n    def _query_text(self) -> str:\n        return str(self.query_string, errors="surrogateescape")\n'), expect="R7.3"),
+]
+_split(R4_SURROGATES)
+
+
+# -- round-4 seed C07-I: nested unbounded repeats that cut one run of a character in more than one way (R7.4)
+S = "sansio/http.py"; H = "http.py"; I = "_internal.py"
+CK_QUOTED_OLD = '        "(?:[^\\\\"]|\\\\.)*"\n'
+PKEY_OLD = '''_parameter_key_re = re.compile(r"([\\w!#$%&'*+\\-.^`|~]+)=", flags=re.ASCII)\n'''
+CSV_OLD = "    ([\\w!#$%&*+\\-.^`|~]*)'  # charset part, could be empty\n"
+CONT_OLD = '_continuation_re = re.compile(r"\\*(\\d+)$", re.ASCII)\n'
+QV_OLD = '_q_value_re = re.compile(r"-?\\d+(\\.\\d+)?", re.ASCII)\n'
+PINT_OLD = '_plain_int_re = re.compile(r"-?\\d+", re.ASCII)\n'
+ETAG_RE_OLD = '''_etag_re = re.compile(r'([Ww]/)?(?:"(.*?)"|(.*?))(?:\\s*,\\s*|$)')\n'''
+R4_REGEX = [
+    V("r4-cookie-quoted-unrolled-loop", (S, CK_QUOTED_OLD, '        "[^\\\\"]*(?:\\\\.[^\\\\"]*)*"\n')),
+    V("r4-cookie-quoted-alternatives-swapped", (S, CK_QUOTED_OLD, '        "(?:\\\\.|[^\\\\"])*"\n')),
+    V("r4-param-key-counted-repeat", (H, PKEY_OLD, '''_parameter_key_re = re.compile(r"([\\w!#$%&'*+\\-.^`|~]{1,})=", flags=re.ASCII)\n''')),
+    V("r4-continuation-digit-class", (H, CONT_OLD, '_continuation_re = re.compile(r"\\*([0-9]+)$", re.ASCII)\n')),
+    V("r4-q-value-digit-class", (H, QV_OLD, '_q_value_re = re.compile(r"-?[0-9]+(\\.[0-9]+)?", re.ASCII)\n')),
+    V("r4-etag-weak-prefix-alternation", (H, ETAG_RE_OLD, '''_etag_re = re.compile(r'(W/|w/)?(?:"(.*?)"|(.*?))(?:\\s*,\\s*|$)')\n''')),
+    V("M:r4-cookie-quoted-run-inside-star", (S, CK_QUOTED_OLD, '        "(?:\\\\.|[^\\\\"]+)*"\n'), expect="R7.4"),
+    V("M:r4-cookie-quoted-star-inside-star", (S, CK_QUOTED_OLD, '        "(?:[^\\\\"]*|\\\\.)*"\n'), expect="R7.4"),
+    V("M:r4-param-key-plus-of-plus", (H, PKEY_OLD, '''_parameter_key_re = re.compile(r"((?:[\\w!#$%&'*+\\-.^`|~]+)+)=", flags=re.ASCII)\n'''), expect="R7.4"),
+    V("M:r4-charset-star-of-star", (H, CSV_OLD, "    ((?:[\\w!#$%&*+\\-.^`|~]*)*)'  # charset part, could be empty\n"), expect="R7.4"),
+    V("M:r4-continuation-groups-of-digits-before-end", (H, CONT_OLD, '_continuation_re = re.compile(r"\\*((?:\\d+)+)$", re.ASCII)\n'), expect="R7.4"),
+    V("M:r4-q-value-groups-of-digits-fullmatch", (H, QV_OLD, '_q_value_re = re.compile(r"-?(?:\\d+)+(\\.\\d+)?", re.ASCII)\n'), expect="R7.4"),
+    V("M:r4-plain-int-digit-groups-fullmatch", (I, PINT_OLD, '_plain_int_re = re.compile(r"-?(?:\\d\\d*)+", re.ASCII)\n'), expect="R7.4"),
+    V("M:r4-etag-quoted-lazy-run-in-star", (H, ETAG_RE_OLD, '''_etag_re = re.compile(r'([Ww]/)?(?:"((?:[^"]+?)*)"|(.*?))(?:\\s*,\\s*|$)')\n'''), expect="R7.4"),
+]
+_split(R4_REGEX)
+
+GETDATA_SIG_OLD = "        self, cache: bool = True, as_text: bool = False, parse_form_data: bool = False\n    ) -> bytes | str:\n"
+R4_SURROGATES_2 = [
+    V("r4-get-data-handler-public-parameter", (WR, GETDATA_SIG_OLD, '        self, cache: bool = True, as_text: bool = False, parse_form_data: bool = False, errors: str = "replace"\n    ) -> bytes | str:\n'), (WR, GETDATA_OLD, "            rv = rv.decode(errors=errors)\n")),
+    V("M:r4-get-data-public-parameter-surrogateescape", (WR, GETDATA_SIG_OLD, '        self, cache: bool = True, as_text: bool = False, parse_form_data: bool = False, errors: str = "surrogateescape"\n    ) -> bytes | str:\n'), (WR, GETDATA_OLD, "            rv = rv.decode(errors=errors)\n"), expect="R7.3"),
+]
+_split(R4_SURROGATES_2)
